@@ -257,7 +257,7 @@ class World(object):
         self.blocked = []
         self.seq = 0
         self.seq_lock = threading.Lock()
-        self.block_guard = 5.0
+        self.block_guard = 0.25
         self.scheduler = None
         self.resolved = []
 
@@ -392,7 +392,7 @@ class World(object):
             if not any(t.is_alive() for t in self.threads
                        if t.ident is not None) and \
                     all(t.ident is not None for t in self.threads):
-                return 'done'
+                return 'blocked' if self.blocked else 'done'
             sig = (self.seq, sum(l.reads for l in self.links),
                    len(self.threads))
             idle = sum(l.idle for l in self.links)
